@@ -300,7 +300,7 @@ def oracle(c, r=None):
         k, which, off, q = bad[0]
         return (sig, "deg_step=%r alpha=%r n=%d: vertex %s of %d is not on the tangent line of direction %.6g deg "
                      "(offset %r along the normal, (1-alpha)-quantile of the projected sample %r)" % (
-                         deg_step, verts, M, math.degrees(0.5 * math.pi + s - k * s), off, q))
+                         deg_step, alpha, len(x), verts, M, math.degrees(0.5 * math.pi + s - k * s), off, q))
     return None
 
 
